@@ -47,3 +47,58 @@ Proof.
   specialize (H _ Hin). cbn [fst snd] in H. rewrite Hr in H.
   destruct (lookup k p) as [g|]; [|discriminate]. exists g. split; [reflexivity | apply Z.leb_le; exact H].
 Qed.
+
+(* hidden entries: the version _GD_FindVersion leaves available for a database
+   with a hidden entry of type k *)
+Definition hidden_min (skips : bool) (hmin : Z) (w : list (string * Z)) (k : string) : Z :=
+  if skips then hmin else Z.max hmin (match lookup k w with Some v => v | None => 0 end).
+
+Fixpoint first_bad_hidden (skips : bool) (hmin : Z) (w p all : list (string * Z)) : option string :=
+  match all with
+  | [] => None
+  | (k, _) :: r =>
+      if real_entry k && negb (match lookup k p with Some g => g <=? hidden_min skips hmin w k | None => false end)
+      then Some k else first_bad_hidden skips hmin w p r
+  end.
+
+Definition hidden_statement (skips : bool) (hmin : Z) (w p : list (string * Z)) : Prop :=
+  forall k v, In (k, v) w -> real_entry k = true ->
+  exists g, lookup k p = Some g /\ g <= hidden_min skips hmin w k.
+
+Definition hidden_refutation (skips : bool) (hmin : Z) (w p : list (string * Z)) : Prop :=
+  exists k, real_entry k = true /\
+            match lookup k p with Some g => hidden_min skips hmin w k < g | None => True end.
+
+Lemma first_bad_hidden_none skips hmin w p all :
+  first_bad_hidden skips hmin w p all = None ->
+  forall k v, In (k, v) all -> real_entry k = true ->
+  exists g, lookup k p = Some g /\ g <= hidden_min skips hmin w k.
+Proof.
+  induction all as [|[k0 v0] r IH]; cbn [first_bad_hidden]; intros H k v Hin Hr; [contradiction|].
+  destruct (real_entry k0 && negb match lookup k0 p with Some g => g <=? hidden_min skips hmin w k0 | None => false end) eqn:E;
+    [discriminate|].
+  destruct Hin as [Heq | Hin]; [|eauto].
+  injection Heq as -> ->. rewrite Hr in E. cbn [andb] in E. apply negb_false_iff in E.
+  destruct (lookup k p) as [g|]; [|discriminate]. exists g. split; [reflexivity | apply Z.leb_le; exact E].
+Qed.
+
+Lemma first_bad_hidden_some skips hmin w p all k :
+  first_bad_hidden skips hmin w p all = Some k -> hidden_refutation skips hmin w p.
+Proof.
+  induction all as [|[k0 v0] r IH]; cbn [first_bad_hidden]; intros H; [discriminate|].
+  destruct (real_entry k0 && negb match lookup k0 p with Some g => g <=? hidden_min skips hmin w k0 | None => false end) eqn:E.
+  - injection H as <-. apply andb_true_iff in E. destruct E as [Hr E]. apply negb_true_iff in E.
+    exists k0. split; [exact Hr|]. destruct (lookup k0 p) as [g|]; [apply Z.leb_gt; exact E | exact I].
+  - eauto.
+Qed.
+
+Lemma hidden_verdict skips hmin w p :
+  match first_bad_hidden skips hmin w p w with
+  | None => hidden_statement skips hmin w p
+  | Some _ => hidden_refutation skips hmin w p
+  end.
+Proof.
+  destruct (first_bad_hidden skips hmin w p w) eqn:E.
+  - eapply first_bad_hidden_some; exact E.
+  - exact (first_bad_hidden_none _ _ _ _ _ E).
+Qed.
